@@ -132,6 +132,56 @@ func foldsAllMiddlewares(c *Ctx, rule string, fn *ssa.Function) {
 		c.ob(rule, fnKey(fn)+"#handler-call-"+itoa(n), call.Pos(), viaMw, "the dispatcher invokes route.Handler without folding route.Middlewares over it: declared auth and rate limits are bypassed")
 	})
 	if n == 0 {
+		// the whole fold may live in a helper that is handed the matched route and returns the wrapped handler
+		eachInstr(fn, func(_ *ssa.BasicBlock, _ int, ins ssa.Instruction) {
+			call, ok := ins.(*ssa.Call)
+			if !ok || call.Call.IsInvoke() || !typeIs(call.Call.Value.Type(), serverPath, "RouteHandler") {
+				return
+			}
+			derivesFrom(call.Call.Value, func(x ssa.Value) bool {
+				hc, ok := x.(*ssa.Call)
+				if !ok {
+					return false
+				}
+				h := staticFn(hc)
+				if h == nil || h.Pkg == nil || !strings.HasPrefix(h.Pkg.Pkg.Path(), modPath) || len(h.Blocks) == 0 {
+					return false
+				}
+				takesRoute := false
+				for _, a := range hc.Call.Args {
+					if typeIs(derefPtr(a.Type()), serverPath, "Route") {
+						takesRoute = true
+					}
+				}
+				if !takesRoute {
+					return false
+				}
+				// every handler the helper returns is the route's handler with the route's middlewares applied
+				okAll, rets := true, 0
+				eachInstr(h, func(_ *ssa.BasicBlock, _ int, y ssa.Instruction) {
+					r, ok := y.(*ssa.Return)
+					if !ok || len(r.Results) == 0 {
+						return
+					}
+					rets++
+					v := r.Results[0]
+					fromHandler := derivesFrom(v, func(z ssa.Value) bool { return isLoadOf(z, "Handler") })
+					viaMw := derivesFrom(v, func(z ssa.Value) bool {
+						cl, ok := z.(*ssa.Call)
+						return ok && derivesFrom(cl.Call.Value, func(w ssa.Value) bool { return isLoadOf(w, "Middlewares") })
+					})
+					if !fromHandler || !viaMw {
+						okAll = false
+					}
+				})
+				n++
+				c.ob(rule, fnKey(fn)+"#handler-call-"+itoa(n), call.Pos(), okAll && rets > 0, "the dispatcher invokes what "+h.Name()+" returns, and that is not route.Handler with route.Middlewares folded over it: declared auth and rate limits are bypassed")
+				foldCoverage(c, rule, h, func(v ssa.Value) bool { return isLoadOf(v, "Middlewares") })
+				return true
+			})
+		})
+	}
+	if n == 0 {
 		c.ob(rule, fnKey(fn)+"#handler-call", fn.Pos(), false, "dispatcher does not invoke a handler derived from route.Handler")
 	}
 	foldCoverage(c, rule, fn, func(v ssa.Value) bool { return isLoadOf(v, "Middlewares") })
